@@ -367,8 +367,26 @@ pub fn family(tier: Tier) -> Vec<Spec> {
     // five to eight simultaneously matching leaves (more than any fixed small buffer): every
     // rotation of strict priorities (each position wins once), a literal token in every position
     // under default priorities, and a tie at the top in every pair of positions
-    let wide = ["a+", "[ab]+", "a[ab]*", "[^b]+", "a|b", "[ab]", "aa?", "ab?", "a{2}[ab]*", "(?i:a)+", "a{1,3}"];
+    let wide = ["a+", "[ab]+", "a[ab]*", "[^b]+", "a|b", "[ab]", "aa?", "ab?", "a{2}[ab]*", "(?i:a)+", "a{1,3}", "[ab]{1,2}", "a?a"];
     let nmax = if tier == Tier::Thorough { 8 } else { 6 };
+    // nine to thirteen leaves matching at once, the interesting positions only: a strict winner / a
+    // tie among the LAST ones declared (behind eight or more others), first against last
+    for n in [9usize, 10, 12, 13] {
+        let base = &wide[..n];
+        for (r, r2) in [(n - 2, n - 1), (0, n - 1), (7, 8), (n - 1, n - 1), (8, 8), (0, 0)] {
+            let pats: Vec<Pat> = base.iter().enumerate().map(|(x, p)| Pat::regex(p).prio(if x == r || x == r2 { 60 } else { 3 + x })).collect();
+            specs.push(Spec::new(true, pats.clone()));
+            if r == n - 2 {
+                specs.push(Spec::new(false, pats));
+            }
+        }
+        // a literal token declared last among default-priority regexes
+        let mut pats: Vec<Pat> = base.iter().map(|p| Pat::regex(p)).collect();
+        pats[n - 1] = Pat::token("aa");
+        specs.push(Spec::new(true, pats.clone()));
+        pats.push(Pat::token("aa"));
+        specs.push(Spec::new(true, pats));
+    }
     for n in 5..=nmax {
         for off in 0..=(wide.len() - n).min(if tier == Tier::Thorough { 3 } else { 1 }) {
             let base = &wide[off..off + n];
@@ -529,6 +547,70 @@ pub fn family(tier: Tier) -> Vec<Spec> {
                 pats.insert(pos.min(pats.len()), shadow.clone());
                 specs.push(Spec::new(true, pats.clone()));
                 specs.push(Spec::new(false, pats));
+            }
+        }
+    }
+    // classes a generator might recognise BY NAME (letters, hex digits, identifier characters, white
+    // space, printable ASCII ...) as loops and as single edges, in both modes; and loops over ranges
+    // of 3- and 4-byte characters whose last continuation byte is restricted
+    {
+        let named = [
+            "[A-Za-z]", "[a-zA-Z]", "[0-9A-Fa-f]", "[A-Za-z0-9_]", "[a-z]", "[A-Z]", "[0-9]", "(?-u:\\s)", "(?-u:\\w)", "(?-u:\\d)", "[[:alpha:]]", "[[:alnum:]]", "[[:space:]]", "[[:punct:]]", "[[:xdigit:]]",
+            "[ \\t\\r\\n]", "[!-~]", "[ -~]", "[\\x00-\\x7f]", "[A-Za-z_$]", "[a-z0-9]", "[A-Fa-f]", "[^\\x00-\\x7f]", "[a-zA-Z\u{80}-\u{10ffff}]",
+            "[一-丯]", "[😀-😏]", "[a-z一-丯]", "[\u{800}-\u{83f}]", "[\u{10000}-\u{1003f}]", "[\u{fff0}-\u{1000f}]", "[\u{7f0}-\u{80f}]",
+        ];
+        for c in named {
+            for shape in [format!("{c}+"), format!("#{c}*;"), format!("<{c}>"), format!("{c}{{2,}}x")] {
+                for utf8 in [true, false] {
+                    specs.push(Spec::new(utf8, vec![Pat::regex(&shape)]));
+                    specs.push(Spec::new(utf8, vec![Pat::regex(&shape).prio(9), Pat::regex("(?s:.)").prio(1)]));
+                }
+                specs.push(Spec::new(true, vec![Pat::skip(&shape), Pat::token("zz")]));
+            }
+        }
+    }
+    // a look-behind assertion behind a prefix that may be empty (the assertion then applies at the
+    // token start after all), and behind one that may not
+    for h in ["a*", "(ab)?", "[ \\t]*", "-?", "a+", "(?:a|)"] {
+        for l in ["^", "(?m:^)", "(?-u:\\b)", "(?-u:\\b{start})", "(?-u:\\b{start-half})", "(?-u:\\B)", "$"] {
+            for t in ["b", "[0-9]+", "#[a-z]*", ""] {
+                let p = format!("{h}{l}{t}");
+                specs.push(Spec::new(true, vec![Pat::regex(&p)]));
+                specs.push(Spec::new(false, vec![Pat::regex(&p), Pat::regex("[a-z]+").prio(1)]));
+                specs.push(Spec::new(true, vec![Pat::skip(&p), Pat::token("zz")]));
+            }
+        }
+    }
+    // allow_greedy = true: everything that is rejected only for an unbounded greedy dot is a legal
+    // definition with the flag (its priorities and its matching are checked like any other); greedy
+    // branches inside alternations, in both orders, next to a literal token of the same text
+    {
+        let extra: Vec<Spec> = specs
+            .iter()
+            .filter(|s| s.pats.iter().any(|p| p.kind != Kind::Token && { let t = crate::hirs::lit_pattern_text(&p.lit); [".*", ".+", ".{2,}", "[^a]*", "[^a]+", "[^a]{2,}", "[^b]+"].iter().any(|g| t.contains(g)) }))
+            .map(|s| {
+                let mut s2 = s.clone();
+                for p in &mut s2.pats {
+                    if p.kind != Kind::Token {
+                        p.allow_greedy = true;
+                    }
+                }
+                s2
+            })
+            .collect();
+        specs.extend(extra);
+        for g in [".+", "a.*", "[^a]+", ".{2,}", "#!/.*"] {
+            for o in ["b", "bc", "[ab]", "é", "[a-z]+"] {
+                for pat in [format!("{g}|{o}"), format!("{o}|{g}"), format!("x(?:{g}|{o})"), format!("(?:{o}|{g})y")] {
+                    let mut p = Pat::regex(&pat);
+                    p.allow_greedy = true;
+                    specs.push(Spec::new(true, vec![p.clone()]));
+                    specs.push(Spec::new(true, vec![p.clone(), Pat::token("bc")]));
+                    specs.push(Spec::new(false, vec![p.clone(), Pat::token("b").prio(3)]));
+                    let mut sk = p.clone();
+                    sk.kind = Kind::Skip;
+                    specs.push(Spec::new(true, vec![sk, Pat::token("bc")]));
+                }
             }
         }
     }
